@@ -510,21 +510,6 @@ var sigs = map[string]func(c fw.Case, realOut []string, msg string) bool{
 		}
 		return anyHead(realOut, func(h string) bool { return strings.Contains(h, "TcC") || strings.Contains(h, "TrC") })
 	},
-	// the committed and applied side maps are one atomix map: Get overlays the entry's committed
-	// values with whatever was applied last
-	"sideMapAlias": func(c fw.Case, realOut []string, msg string) bool {
-		if !isConsistency(kindOf(msg)) {
-			return false
-		}
-		p := msgPath(msg)
-		n := 0
-		for _, w := range scriptWrites(c) {
-			if _, ok := w[p]; ok {
-				n++
-			}
-		}
-		return n >= 2
-	},
 	// store() encodes every insert/update of one call from its single loop variable
 	"storeLoopVariable": func(c fw.Case, realOut []string, msg string) bool {
 		k := kindOf(msg)
